@@ -13,14 +13,28 @@ def sep_of(text):
     return "\r\n" if "\r\n" in text else ("\r" if "\r" in text else "\n")
 
 
-def dry_vs_real(rng, driver, vcs):
-    pr = rwcommon.gen_ok_project(rng, mixed_endings=False)
+def dry_vs_real(rng, driver, vcs, license_fault=False):
+    if license_fault:
+        pr = rwcommon.gen_ok_project(rng, mixed_endings=False, license_file=True, max_files=2,
+                                     vp=rng.choice(["vYYYY.BUILD[-TAG]", "YYYY.MM.PATCH", "vYYYY0M.BUILD[-TAG]", "YYYY.BUILD[PYTAGNUM]"]))
+    else:
+        pr = rwcommon.gen_ok_project(rng, mixed_endings=False)
     extra = "commit = true\ntag = true\npush = false" if vcs else ""
     set_version = rng.random() < 0.4
     args = rwcommon.update_args(pr, set_version=set_version)
     case = {"vp": pr["vp"], "old": pr["old"], "new": pr["new"], "files": pr["files"], "file_patterns": pr["file_patterns"], "args": args, "vcs": vcs}
     # fault in a third of the cases: dry must then report it and the real run must change nothing (C06)
+    fault = None
+    if license_fault or rng.random() < 0.3:
+        import props.c06 as c06
+        fl = c06.faults(pr)
+        lic = [f for f in fl if f[1] == "LICENSE"]
+        fault = rng.choice(lic) if (lic and (license_fault or rng.random() < 0.6)) else rng.choice(fl)
+    case["fault"] = list(fault) if fault else None
     with rwcommon.setup(pr, extra, vcs) as p:
+        if fault:
+            import props.c06 as c06
+            c06.apply_fault(pr, p, fault)
         before = p.snapshot()
         code_d, out_d, exc_d = sandbox.run_cli(args + ["--dry"], p.dir, p.env())
         mid = p.snapshot()
@@ -37,12 +51,20 @@ def dry_vs_real(rng, driver, vcs):
         return pr, case, None, "--dry issued mutating VCS commands %r" % muts
     if any(a[0] == "HOOK" for a in log_d):
         return pr, case, None, "--dry ran a hook"
+    if fault:
+        # with a fault the dry run may or may not fail (a removed occurrence can leave the pattern matched elsewhere), but:
+        if code_d != 0:
+            if after != before:
+                return pr, case, None, "--dry reported an error (exit %s) but the real run changed %r" % (code_d, rwcommon.diff_files(before, after))
+            return pr, case, None, None
+        if code_r != 0:
+            return pr, case, None, "--dry exited 0 but the real run with the same arguments exited %s (fault %r)" % (code_r, fault)
     if code_d != 0:
         return pr, case, None, "--dry failed (exit %s) on a consistent project" % code_d
     if code_r != 0:
         return pr, case, None, "--dry exited 0 but the real run with the same arguments exited %s" % code_r
     # apply the printed diff with the model's strict applier
-    texts = {k: v.decode("utf-8") for k, v in before.items() if k in pr["files"] or k == "bumpver.toml"}
+    texts = {k: v.decode("utf-8") for k, v in before.items() if (k in pr["files"] or k == "bumpver.toml")}
     seps = {k: sep_of(t) for k, t in texts.items()}
     # diff lines are printed joined by "\n"; a file using "\r" or "\r\n" has no "\n" inside its lines
     op = {"op": "apply_diff", "diff": out_d.rstrip("\n"), "files": texts, "seps": seps}
@@ -64,11 +86,13 @@ def run(chk, driver, tier):
                          "diff parsed and applied by the model's strict applier; non-trivial = distinct project")
     ops = []
     for i in range(n):
-        pr, case, op, verdict = dry_vs_real(rng, driver, "git" if i % 3 == 0 else None)
+        pr, case, op, verdict = dry_vs_real(rng, driver, "git" if i % 3 == 0 else None, license_fault=(i % 6 == 5))
         chk.count("vcs:%s" % (i % 3 == 0))
         chk.traces += 1
         chk.oracle_case({k: v for k, v in case.items() if k != "diff"}, verdict)
         # correspondence of the model's own dry path
+        if case.get("fault"):
+            continue
         cfg_pairs = [["bumpver.toml", [[pr["vp"], 'current_version = "{version}"']]]] + pr["file_patterns"]
         files = dict(pr["files"])
         files["bumpver.toml"] = projgen.toml_config(pr, "commit = true\ntag = true\npush = false" if i % 3 == 0 else "")
